@@ -114,6 +114,13 @@ def handle (j : Json) : Except String Json := do
     | "current" => pure (jList Json.str (arrayTypes (← listOf getStr (← field j "element_types"))))
     | "pinned" => pure (jList Json.str (arrayTypes0 (← listOf getStr (← field j "type_set_iter"))))
     | v => throw s!"unknown variant {v}"
+  | "mock_unit" =>
+    let variant ← getStr (fieldD j "variant" (Json.str "current"))
+    let path ← getStr (← field j "unit_path")
+    match variant with
+    | "current" => pure (Json.bool (mockUnit (← getBool (← field j "is_extern")) path))
+    | "pinned" => pure (Json.bool (mockUnit0 (← getStr (← field j "marker")) path))
+    | v => throw s!"unknown variant {v}"
   | "bundle_export" =>
     let items ← listOf getItem (← field j "items")
     let kind ← getStr (fieldD j "key_kind" (Json.str "plain"))
